@@ -461,7 +461,9 @@ static void process_branch_exchange(
 
 static void process_swi(char *instruction, int length, uint32_t opcode)
 {
-  snprintf(instruction, length, "swi%s", arm_cond[ARM_NIB(28)]);
+  snprintf(instruction, length, "swi%s 0x%06x",
+    arm_cond[ARM_NIB(28)],
+    opcode & 0xffffff);
 }
 
 static void process_co_swi(char *instruction, int length, uint32_t opcode)
